@@ -691,6 +691,22 @@ pub fn add_digest_label(g: &mut Gen, entries: &mut Vec<(Item, Item)>) {
     entries.insert(at, (l, Item::Int(2)));
 }
 
+/// Two integer labels that fall on the same bit / slot of a small table: they differ by 32, 64, 128,
+/// 256 or 65536 (word widths and table sizes), around 0 and around the bounds of such a table.
+pub fn add_aliasing_labels(g: &mut Gen, entries: &mut Vec<(Item, Item)>) {
+    let m = *g.pick(&[32i128, 64, 64, 64, 128, 256, 65536]);
+    let a = *g.pick(&[0i128, 0, 8, 9, 10, 31, 32, 33, 63, -1, -32, -64, -65]);
+    let k = 1 + g.below(2) as i128;
+    let b = if g.bool() { a + k * m } else { a - k * m };
+    for l in [a, b] {
+        let l = Item::Int(l);
+        if !entries.iter().any(|(k, _)| k == &l) {
+            let at = g.below(entries.len() + 1);
+            entries.insert(at, (l, Item::Int(3)));
+        }
+    }
+}
+
 pub fn add_mixed_labels(g: &mut Gen, entries: &mut Vec<(Item, Item)>) {
     let n = 2 + g.below(4);
     for i in 0..n {
@@ -799,6 +815,9 @@ pub fn gen_header(g: &mut Gen, f: &mut Faults, depth: usize) -> Item {
     }
     if g.ratio(1, 40) {
         add_digest_label(g, &mut entries);
+    }
+    if g.ratio(1, 25) {
+        add_aliasing_labels(g, &mut entries);
     }
     if f.take(g, "non-label-key") {
         let at = g.below(entries.len() + 1);
@@ -1147,6 +1166,9 @@ pub fn gen_key(g: &mut Gen, f: &mut Faults) -> Item {
     if g.ratio(1, 40) {
         add_digest_label(g, &mut entries);
     }
+    if g.ratio(1, 25) {
+        add_aliasing_labels(g, &mut entries);
+    }
     if f.take(g, "non-label-key") {
         let at = g.below(entries.len() + 1);
         entries.insert(at, (gen_non_label(g), gen_value(g, 1, false)));
@@ -1358,6 +1380,24 @@ pub fn gen_claims(g: &mut Gen, f: &mut Faults) -> Item {
             Item::Bytes(g.small_bytes())
         };
         entries.push((Item::Int(7), v));
+    }
+    if g.ratio(1, 20) {
+        // two negative names a multiple of 64 / 256 / 65536 apart (registered -257..-260 or private use),
+        // or the two most negative private-use names
+        let a: i128 = *g.pick(&[-257i128, -258, -259, -260, -65537, -65538, -70000, i64::MIN as i128 + 1]);
+        let m = *g.pick(&[64i128, 64, 128, 256, 65536]);
+        let mut b = a - m * (1 + g.below(3) as i128);
+        while b > -65537 {
+            b -= m * 1024;
+        }
+        if a == i64::MIN as i128 + 1 {
+            b = i64::MIN as i128;
+        }
+        for l in [a, b] {
+            if !entries.iter().any(|(k, _)| k == &Item::Int(l)) {
+                entries.push((Item::Int(l), Item::Int(1)));
+            }
+        }
     }
     let many = g.ratio(1, 25);
     let nextra = if many { 20 + g.below(50) } else { g.weighted(&[3, 3, 2, 1]) };
